@@ -483,10 +483,8 @@ fn part_a(ctx: &Ctx) -> Outcome {
 // filled in by the coordinator; `classes()`, `run_history` and `refmodel::retry::judge`
 // are reusable for it.
 // ---------------------------------------------------------------------------------
-fn part_b(_ctx: &Ctx) -> Outcome {
-    let mut o = Outcome::new();
-    o.inconclusive("C06 workload b (end to end) is not built yet");
-    o
+fn part_b(ctx: &Ctx) -> Outcome {
+    crate::checks::retry_e2e::run_c06_b(ctx)
 }
 
 /// Part named by `--part`, or, when replaying, by the replay file itself.
